@@ -93,11 +93,67 @@ def grown_labels():
             ("every added node is reachable from the state", None)]
 
 
+def allocated(h, alloc):
+    """epsilon target sets and memoised closures are allocated objects (a new set is none of them)"""
+    x = z3.Int("x!a")
+    return z3.ForAll([x], And(EPSSET(x) < alloc, h.fld("epsilon_closure", x) < alloc))
+
+
+def closure_frame(h0, h, alloc0, alloc, state, res):
+    """what epsilon_closure leaves alone: [(label, formula)]; proved as postconditions of the real function, assumed at its call sites"""
+    a, n = z3.Ints("a!cf n!cf")
+    memo0, memo = (lambda v: h0.fld("epsilon_closure", v)), (lambda v: h.fld("epsilon_closure", v))      # noqa: E731
+    return [("existing sets are unchanged", z3.ForAll([a], Implies(a < alloc0, h.memset(a) == h0.memset(a)))),
+            ("the result is the state's old memo or a new set", Or(And(res == memo0(state), res != NONE_ADDR), res >= alloc0)),
+            ("only the state's memo may change, to a new set", z3.ForAll([n], Or(memo(n) == memo0(n), And(n == state, memo(n) >= alloc0)))),
+            ("memoised closures are allocated objects", And(alloc >= alloc0, z3.ForAll([n], memo(n) < alloc)))]
+
+
 def _closure_callee():
     return Callee("epsilon_closure", ["state"], result_kind="ref:set",
-                  requires=[("INV: every memoised epsilon closure is complete", lambda e: inv(e.h0))],
+                  requires=[("INV: every memoised epsilon closure is complete", lambda e: inv(e.h0)),
+                            ("epsilon target sets and memoised closures are allocated objects", lambda e: allocated(e.h0, e.h0.alloc))],
                   modifies=lambda e: [("fld", "epsilon_closure", e.state), ("all-sets",), ("alloc",)],
-                  ensures=[("the complete closure of the state", lambda e: complete(e.h, e.result, e.state))])
+                  ensures=[("the complete closure of the state", lambda e: complete(e.h, e.result, e.state)),
+                           ("INV is re-established", lambda e: inv(e.h))] +
+                          [(t, (lambda k: lambda e: closure_frame(e.h0, e.h, e.h0.alloc, e.h.alloc, e.state, e.result)[k][1])(k)) for k, t in
+                           enumerate(["existing sets are unchanged", "the result is the state's old memo or a new set",
+                                      "only the state's memo may change, to a new set", "memoised closures are allocated objects"])])
+
+
+class _Union:
+    """set_epsilon_closure: outer loop over the given states, inner loop over one state's closure"""
+
+    class Outer:
+        modifies_heap = ["set.mem", "fld.epsilon_closure", "alloc"]
+
+        def holds(self, ex, st, st0):
+            h, h0 = st.heap, Heap()
+            s = st0.vars["state_set"].addr
+            R = st0.vars["result"].addr
+            seen = st.vars["$seen0"].t
+            x, y, m = z3.Ints("x!o y!o m!o")
+            cur = h.memset(R)
+            return [("every state visited so far is in the result", z3.ForAll([x], Implies(z3.Select(seen, x), z3.Select(cur, x)))),
+                    ("the result is closed under epsilon moves", z3.ForAll([x, y], Implies(And(z3.Select(cur, x), succ(h, x, y)), z3.Select(cur, y)))),
+                    ("every member of the result is reachable from a given state",
+                     z3.ForAll([y], Implies(z3.Select(cur, y), z3.Exists([m], And(h0.mem(s, m), REACH(m, y)))))),
+                    ("INV", inv(h)),
+                    ("allocated", And(allocated(h, h.alloc), R < h.alloc, s < R, h.alloc >= st0.heap.alloc)),
+                    ("the result set is neither a memo nor an epsilon target set",
+                     z3.ForAll([x], And(h.fld("epsilon_closure", x) != R, EPSSET(x) != R))),
+                    ("sets that existed at entry are unchanged", z3.ForAll([x], Implies(x < R, h.memset(x) == h0.memset(x))))]
+
+    class Inner:
+        modifies_heap = ["set.mem"]
+
+        def holds(self, ex, st, st0):
+            h = st.heap
+            R = st0.vars["result"].addr
+            seen = st.vars["$seen1"].t
+            x = z3.Int("x!i")
+            return [("the result is what it was plus the members visited", z3.ForAll([x], z3.Select(h.memset(R), x) == Or(z3.Select(st0.heap.memset(R), x), z3.Select(seen, x)))),
+                    ("only the result set is written", z3.ForAll([x], Implies(x != R, h.memset(x) == st0.heap.memset(x))))]
 
 
 class _SuccLoop:
@@ -179,13 +235,65 @@ def units(tier):
                  requires=[("REACH obeys the rules of reachability by epsilon moves", lambda e: reach_rules(e.h0)),
                            ("INV: every memoised epsilon closure is complete", lambda e: inv(e.h0)),
                            ("epsilon target sets and memoised closures are allocated objects (a new set is none of them)",
-                            lambda e: z3.ForAll([z3.Int("x!a")], And(EPSSET(z3.Int("x!a")) < z3.Int("H0.alloc"),
-                                                                     e.h0.fld("epsilon_closure", z3.Int("x!a")) < z3.Int("H0.alloc"))))],
+                            lambda e: allocated(e.h0, z3.Int("H0.alloc")))],
                  ensures=[("the result is the complete epsilon closure of the state", lambda e: And(_res(e)[0], complete(e.h, _res(e)[1], e.state))),
-                          ("INV is re-established", lambda e: inv(e.h))],
+                          ("INV is re-established", lambda e: inv(e.h))] +
+                         [(t, (lambda k: lambda e: closure_frame(e.h0, e.h, z3.Int("H0.alloc"), _alloc(e), e.state, _res(e)[1])[k][1])(k)) for k, t in
+                          enumerate(["existing sets are unchanged", "the result is the state's old memo or a new set",
+                                     "only the state's memo may change, to a new set", "memoised closures are allocated objects"])],
                  callees={"add_to_epsilon_closure": _add_callee()},
                  native=_native, search=lambda seed, ob: _native({}, ob), options=dict(common))
-    return [add, clo]
+    x, y, m = z3.Ints("x!u y!u m!u")
+    uni = PyUnit("DFA.set_epsilon_closure", {"C50": None}, FILE, "set_epsilon_closure", [("state_set", "ref:set")],
+                 requires=[("REACH obeys the rules of reachability by epsilon moves", lambda e: reach_rules(e.h0)),
+                           ("INV: every memoised epsilon closure is complete", lambda e: inv(e.h0)),
+                           ("epsilon target sets and memoised closures are allocated objects (a new set is none of them)",
+                            lambda e: allocated(e.h0, z3.Int("H0.alloc")))],
+                 ensures=[("every given state is in the result", lambda e: z3.ForAll([x], Implies(e.h0.mem(e.state_set, x), e.h.mem(e.result, x)))),
+                          ("the result is closed under epsilon moves", lambda e: z3.ForAll([x, y], Implies(And(e.h.mem(e.result, x), succ(e.h, x, y)), e.h.mem(e.result, y)))),
+                          ("every member of the result is reachable from a given state",
+                           lambda e: z3.ForAll([y], Implies(e.h.mem(e.result, y), z3.Exists([m], And(e.h0.mem(e.state_set, m), REACH(m, y)))))),
+                          ("the result is a new set; the given set is unchanged", lambda e: And(e.result >= z3.Int("H0.alloc"), e.h.memset(e.state_set) == e.h0.memset(e.state_set))),
+                          ("INV is re-established", lambda e: inv(e.h))],
+                 callees={"epsilon_closure": _closure_callee()},
+                 native=_native_union, search=lambda seed, ob: _native_union({}, ob),
+                 options=dict(common, invariants={0: _Union.Outer(), 1: _Union.Inner()}))
+    return [add, clo, uni]
+
+
+def _alloc(e):
+    a = e.h.alloc
+    return a if a is not None else z3.Int("H0.alloc")
+
+
+def _native_union(model, obname):
+    """set_epsilon_closure on random graphs: the union of the closures of the given states"""
+    import random
+    dfa = load_source_module(FILE, "dvsubject_DFA")
+    machines = load_source_module("Cython/Plex/Machines.py", "dvsubject_Machines")
+    rnd = random.Random(11)
+    for trial in range(300):
+        n = rnd.randint(1, 7)
+        nodes = [machines.Node() for _ in range(n)]
+        edges = set()
+        for _ in range(rnd.randint(0, 2 * n)):
+            a, b = rnd.randrange(n), rnd.randrange(n)
+            edges.add((a, b))
+            nodes[a].link_to(nodes[b])
+        given = set(rnd.sample(range(n), rnd.randint(0, n)))
+        got = {nodes.index(v) for v in dfa.set_epsilon_closure({nodes[k] for k in given})}
+        want, todo = set(given), list(given)
+        while todo:
+            a = todo.pop()
+            for (p, q) in edges:
+                if p == a and q not in want:
+                    want.add(q)
+                    todo.append(q)
+        if got != want:
+            return {"inputs": {"nodes": n, "epsilon_moves": sorted(edges), "given": sorted(given)}, "actual": sorted(got), "expected": sorted(want),
+                    "confirmed": True, "obligation": obname,
+                    "how": "Plex/DFA.py and Machines.py loaded from source; set_epsilon_closure() on real Node objects against a work-list closure"}
+    return {"confirmed": False, "tried": 300}
 
 
 REGIONS = {}
